@@ -25,7 +25,7 @@ From H3V Require Import Model.QpackStateless Proofs.QpackStatelessProofs.
 From H3V Require Import Model.Settings Proofs.SettingsProofs.
 From H3V Require Import Model.Headers Proofs.HeadersProofs.
 From H3V Require Import Spec.FrameVocab Model.FrameDec Model.FrameStream Proofs.ProgressFrameStream Proofs.NoPanicFrames.
-From H3V Require Import Model.AcceptRecv Proofs.AcceptRecvProofs.
+From H3V Require Import Gen.GenStreamTypes Model.AcceptRecv Proofs.AcceptRecvProofs Proofs.UniStreamsProofs.
 From H3V Require Import Spec.FrameTrace Proofs.FramesProofs.
 From H3V Require Import Model.Cursor Proofs.CursorProofs.
 From H3V Require Import Model.RecvPath Proofs.RecvPathProofs.
@@ -36,9 +36,20 @@ Theorem C06_panic_sites_all_reviewed : forall s, In s GenPanicSites.sites -> rev
 Proof. exact panic_sites_universal. Qed.
 
 (* the reviewed verdicts (guards, bounds, "send path only") were read off the exact text of the owning functions:
-   every such function (Gen.fn_prints: 60 bits of SHA-256 of its comment-free body) is unchanged since its review *)
+   every function of the inventoried files, row owner or not (Gen.fn_prints: 60 bits of SHA-256 of its comment-free body), is unchanged since its review *)
 Theorem C06_panic_owner_functions_unchanged : forall q, In q GenPanicSites.fn_prints -> print_reviewed q = true.
 Proof. exact panic_owner_functions_universal. Qed.
+
+(* the connection-level functions that the C04 models mirror by hand and that own no panic row of their own
+   (ConnectionInner::poll_control / poll_accept_recv / process_goaway / poll_grease_stream, AcceptRecvStream::poll_type /
+   poll_next_varint / into_stream, server accept / shutdown / poll_accept_request / poll_control / poll_next_control,
+   client poll_close) still have the bodies the models were written against (shape hashes of Gen/GenStreamTypes.v,
+   regenerated on every run); since round 2 they are ALSO in fn_prints above, like every function of the inventoried files *)
+Theorem C06_source_shapes :
+  (* the statement IS C04's `source_shapes` (one equation `shape_<fn> = <hash>` per function, see
+     Proofs/UniStreamsProofs.v); it is re-stated by reference so that the two can never drift apart *)
+  ltac:(let t := type of UniStreamsProofs.source_shapes in exact t).
+Proof. exact UniStreamsProofs.source_shapes. Qed.
 
 Theorem C06_panic_review_no_duplicate_rows : nodup_rows PanicReview.table = true.
 Proof. exact panic_review_no_duplicate_rows. Qed.
@@ -287,6 +298,7 @@ Proof. exact completes. Qed.
 
 Print Assumptions C06_panic_sites_all_reviewed.
 Print Assumptions C06_panic_owner_functions_unchanged.
+Print Assumptions C06_source_shapes.
 Print Assumptions C06_panic_review_no_duplicate_rows.
 Print Assumptions C06_terminal_is_sticky.
 Print Assumptions C06_must_complete_monotone.
